@@ -597,13 +597,39 @@ impl Checker<'_> {
             let sys = model::is_sys(&e.key);
             // --- claimed / attributable events first
             let attributed: Option<usize> = if !e.del {
-                set_index
-                    .get(&vkey(&e.key, &e.value))
-                    .and_then(|v| v.iter().find(|id| !self.p.ops[**id].placed).cloned())
+                set_index.get(&vkey(&e.key, &e.value)).and_then(|v| {
+                    // a request cannot cause an event that was seen before the request was sent
+                    let mut open: Vec<usize> = v
+                        .iter()
+                        .filter(|id| !self.p.ops[**id].placed && self.p.ops[**id].inv < e.seq)
+                        .cloned()
+                        .collect();
+                    open.sort_by_key(|id| self.p.ops[*id].inv);
+                    // several requests wrote this very (key, value): take the first one the model
+                    // accepts at this point (a value-preserving rewrite by another client)
+                    // prefer requests the server acknowledged, then unanswered ones (outcome
+                    // unknown), and only then requests it refused
+                    let class = |id: &usize| match self.p.ops[*id].ans.as_ref() {
+                        Some(a) if sm_code(&a.1).is_none() => 0,
+                        None => 1,
+                        Some(_) => 2,
+                    };
+                    let best = open.iter().map(class).min().unwrap_or(0);
+                    let pool: Vec<usize> = open.iter().filter(|id| class(id) == best).cloned().collect();
+                    pool.iter()
+                        .find(|id| {
+                            let mut probe = m.clone();
+                            !matches!(self.apply(&mut probe, &self.p.ops[**id]).0, Ans::Err(_))
+                        })
+                        .or(pool.first())
+                        .cloned()
+                })
             } else {
-                del_claims
-                    .get(&vkey(&e.key, &e.value))
-                    .and_then(|v| v.iter().find(|id| !self.p.ops[**id].placed).cloned())
+                del_claims.get(&vkey(&e.key, &e.value)).and_then(|v| {
+                    v.iter()
+                        .find(|id| !self.p.ops[**id].placed && self.p.ops[**id].inv < e.seq)
+                        .cloned()
+                })
             };
             if let Some(opid) = attributed {
                 let op = self.p.ops[opid].clone();
@@ -635,19 +661,20 @@ impl Checker<'_> {
                 let mut consumed: Vec<(bool, String, Value)> = vec![];
                 let mut j = i;
                 let is_pdelete = matches!(op.req, Some(CM::PDelete(_)));
-                if op.import.is_some() {
+                if let Some(entries) = &op.import {
+                    // every entry of the document is announced exactly once
+                    let mut remaining: Vec<(String, String)> =
+                        entries.iter().map(|(k, v, _)| vkey(k, v)).collect();
                     while j < w.len() {
                         let ej = &w[j];
                         if ej.del {
                             break;
                         }
-                        let mine = set_index
-                            .get(&vkey(&ej.key, &ej.value))
-                            .map(|v| v.contains(&opid))
-                            .unwrap_or(false);
-                        if !mine {
+                        let kk = vkey(&ej.key, &ej.value);
+                        let Some(pos) = remaining.iter().position(|x| *x == kk) else {
                             break;
-                        }
+                        };
+                        remaining.remove(pos);
                         consumed.push((false, ej.key.clone(), ej.value.clone()));
                         j += 1;
                     }
@@ -972,6 +999,18 @@ impl Checker<'_> {
         if let Some(gg) = gg {
             for pat in gg {
                 let ans = m.pdelete(&pat, cid, false);
+                if !matches!(ans, Ans::DeletedKvs(_)) && pat.starts_with("$SYS") {
+                    // a grave good that names $SYS literally is refused; nothing may disappear
+                    while i < w.len() && w[i].del && model::is_sys(&w[i].key) && model::matches(&pat, &w[i].key) && !w[i].key.starts_with(&prefix) {
+                        self.violate(
+                            "C07",
+                            "session-end-writes-protected-key",
+                            "a session end applied a last will or grave good to a protected $SYS key",
+                            format!("client {client}: grave good {pat} removed {}", w[i].key),
+                        );
+                        i += 1;
+                    }
+                }
                 if let Ans::DeletedKvs(kvs) = ans {
                     let mut want: BTreeMap<(String, String), Value> = kvs
                         .iter()
@@ -981,6 +1020,14 @@ impl Checker<'_> {
                         let e = &w[i];
                         if model::is_sys(&e.key) {
                             if e.del && model::matches(&pat, &e.key) && model::protected_from(&e.key, cid) {
+                                if pat.starts_with("$SYS") {
+                                    self.violate(
+                                        "C07",
+                                        "session-end-writes-protected-key",
+                                        "a session end applied a last will or grave good to a protected $SYS key",
+                                        format!("client {client}: grave good {pat} removed {}", e.key),
+                                    );
+                                }
                                 self.violate(
                                     "C08",
                                     "sys-deleted-by-grave-goods",
@@ -1012,6 +1059,21 @@ impl Checker<'_> {
             for kv in lw {
                 let old = m.map.get(&kv.key).cloned();
                 let ans = m.set(&kv.key, &kv.value, cid, false, true);
+                if ans != Ans::Ack && model::is_sys(&kv.key) {
+                    // a last will that points at a protected key must not be applied
+                    let mut j = i;
+                    while j < w.len() && model::is_sys(&w[j].key) {
+                        if !w[j].del && w[j].key == kv.key && w[j].value == kv.value {
+                            self.violate(
+                                "C07",
+                                "session-end-writes-protected-key",
+                                "a session end applied a last will or grave good to a protected $SYS key",
+                                format!("client {client}: last will {} = {}", kv.key, kv.value),
+                            );
+                        }
+                        j += 1;
+                    }
+                }
                 if ans == Ans::Ack {
 
                     if i < w.len() && !w[i].del && w[i].key == kv.key && w[i].value == kv.value {
